@@ -28,6 +28,8 @@ func init() {
 
 func runC14(c *report.Ctx) {
 	p := c.P
+	ruleKeyLengthTolerant(c)
+	ruleBranchKeyAgreement(c) // the key stored for a labelled path is the BIP-32 key of that path
 	ek := p.Type(pkgHD, "ExtendedKey")
 	if ek == nil {
 		c.Lost("hdkeychain.ExtendedKey")
